@@ -1,6 +1,9 @@
 /-
-  Umbrella for property C12: the theorems of Props/C12 plus the dense-norm theorems that were
-  proved next to the C08 densification lemmas (Props/C08b: `C08.norm_sq_eq_dense`).
+  Umbrella for property C12: the theorems of Props/C12, the dense-norm theorems that were
+  proved next to the C08 densification lemmas (Props/C08b: `C08.norm_sq_eq_dense`), and the
+  spectrum theorems (Props/C12b: characteristic polynomial / eigenvalue and squared-singular-value
+  multisets of the dense form = those of the blocks).
 -/
 import SymmModel.Props.C12
 import SymmModel.Props.C08b
+import SymmModel.Props.C12b
